@@ -189,6 +189,70 @@ def overlap_probe():
     state.debug = before
     return {"results": [log.get("f"), log.get("g")], "switch_before": before, "switch_after": after, "enforced_afterwards": enforced}
 
+def stepped_in_validator_probe():
+    """a step of a contracted generator taken from inside a validator of another contracted call (deal switches contracts off while a
+    validator runs): the generator observes what it observes alone -- before, at and after that step -- and the switch and the
+    streams are the original ones whenever nothing runs"""
+    import sys
+    from deal._state import state
+    orig = (sys.stdout, sys.stderr)
+    def make(kind):
+        if kind == "post":
+            @deal.post(lambda v: v < 100)
+            def g():
+                yield 1
+                yield 2
+                yield 500
+                yield 3
+        elif kind == "ensure":
+            @deal.ensure(lambda lim, result: result < lim)
+            def g(lim):
+                yield 1
+                yield 2
+                yield 500
+                yield 3
+            return g(100)
+        else:
+            @deal.has()
+            def g():
+                yield 1
+                yield 2
+                print("undeclared")
+                yield 3
+        return g()
+    def one(it):
+        try: return ["value", next(it)]
+        except StopIteration: return ["stop"]
+        except BaseException as e: return ["raised", type(e).__name__]
+    def quiet(): return state.debug is True and (sys.stdout, sys.stderr) == orig
+    out = {}
+    for kind in ("post", "ensure", "has"):
+        it = make(kind); alone = [one(it) for _ in range(4)]
+        for where in (0, 1, 2):      # which step is taken inside the other call's validator
+            for how in ("pre_of_call", "post_of_generator"):
+                it = make(kind); log = []; idle = []
+                def stepper(*a):
+                    log.append(one(it)); return True
+                if how == "pre_of_call":
+                    other = deal.pre(stepper)(lambda x: x)
+                    def take(): other(0)
+                else:
+                    @deal.post(stepper)
+                    def other():
+                        yield 0
+                        yield 0
+                        yield 0
+                    oit = other()
+                    def take(): next(oit)
+                for i in range(4):
+                    if i == where: take()
+                    else: log.append(one(it))
+                    idle.append(quiet())
+                out[f"{kind}/{how}/step{where}"] = (log == alone) and all(idle)
+                if not out[f"{kind}/{how}/step{where}"]: out[f"{kind}/{how}/step{where}"] = [log, alone, idle]
+    state.debug = True
+    return out
+
 def same_function_overlap_probe():
     """two asyncio tasks, then two threads, inside one @deal.has() function at the same time (A in, B in, A out, B out): once both
     have finished the streams and the socket class are the original objects and a bystander may print"""
@@ -266,6 +330,20 @@ def thread_probe(ctx, fr):
         fr.violations.append({'scenario': {'family': 'same-function-overlap-probe', 'case': 'two coroutine functions with separate has() objects, A in, B in, A out, B out'},
                               'impl': r3.get('two_functions_separate_has_restored'), 'signature': 'non_lifo_overlap_separate_patchers',
                               'what': 'two coroutines with separate has() patchers that overlap without nesting leave the standard streams / socket class patched after both have finished'})
+    r4 = impl.run_impl('pyexec.py', {'src': THREAD_SRC, 'calls': [['stepped_in_validator_probe', []]]})[0]
+    fr.evaluations += 18; fr.add_nontrivial({'stepped_in_validator_probe': 1}); fr.samples.append({'family': 'stepped-in-validator-probe', 'result': r4})
+    bad4 = {k: v for k, v in r4.items() if v is not True} if isinstance(r4, dict) and 'error' not in r4 else {'error': r4}
+    first = {k: v for k, v in bad4.items() if k.endswith('/step0')}
+    bad4 = {k: v for k, v in bad4.items() if not k.endswith('/step0')}
+    if first:
+        # C13-F4: the wrapper of a generator reads the switch once, at its first step
+        k0 = sorted(first)[0]
+        fr.violations.append({'scenario': {'family': 'stepped-in-validator-probe', 'case': k0}, 'impl': first[k0], 'signature': 'first_step_inside_validator',
+                              'what': f'a contracted generator whose FIRST step is taken inside a validator of another contracted call runs bare from then on ({k0}: [interleaved, alone, quiescent]) = {first[k0]}; cases: {sorted(first)}'})
+    if bad4:
+        k0 = sorted(bad4)[0]
+        fr.violations.append({'scenario': {'family': 'stepped-in-validator-probe', 'case': k0}, 'impl': bad4[k0], 'signature': None,
+                              'what': f'a contracted generator stepped once from inside a validator of another contracted call does not observe what it observes alone ({k0}: [interleaved, alone, quiescent]) = {bad4[k0]}; failing cases: {sorted(bad4)}'})
     r2 = impl.run_impl('pyexec.py', {'src': THREAD_SRC, 'calls': [['overlap_probe', []]]})[0]
     fr.evaluations += 1; fr.samples.append({'family': 'thread-overlap-probe', 'result': r2})
     if not (isinstance(r2, dict) and r2.get('switch_after') == r2.get('switch_before') and r2.get('enforced_afterwards') and r2.get('results') == [['value', 6], ['value', 1]]):
